@@ -765,6 +765,46 @@ def case_grid(ctx, inp):
             ctx.eq("broadcast_to: every block vs the Lean plan", m[1],
                    [np.asarray(r.blocks[i].compute(scheduler="sync")).tolist() for i in range(len(r.chunks[0]))])
         ctx.branch("grid:broadcast_to:len1")
+    elif op in ("hcat", "vcat", "block2x2", "tile2d"):
+        rc, c1, c2, r2 = inp["rc"], inp["c1"], inp.get("c2", [1]), inp.get("r2", [1])
+
+        def G(chunks, seed):
+            x, d = _mk(chunks, seed=seed)
+            return x, d, [list(chunks[0]), list(chunks[1]), x.tolist()]
+        if op == "hcat":
+            (xa, da_, ga), (xb, db_, gb) = G([rc, c1], 0), G([rc, c2], 1)
+            r, e = da.concatenate([da_, db_], axis=1), np.concatenate([xa, xb], axis=1)
+            m = ctx.lean(Sym("grid_cat"), Sym("hcat"), 0, 0, [ga, gb])
+        elif op == "vcat":
+            (xa, da_, ga), (xb, db_, gb) = G([c1, rc], 0), G([c2, rc], 1)
+            r, e = da.concatenate([da_, db_], axis=0), np.concatenate([xa, xb], axis=0)
+            m = ctx.lean(Sym("grid_cat"), Sym("vcat"), 0, 0, [ga, gb])
+        elif op == "block2x2":
+            (xa, da_, ga), (xb, db_, gb), (xc, dc_, gc), (xd, dd_, gd) = G([rc, c1], 0), G([rc, c2], 1), G([r2, c1], 2), G([r2, c2], 3)
+            r, e = da.block([[da_, db_], [dc_, dd_]]), np.block([[xa, xb], [xc, xd]])
+            m = ctx.lean(Sym("grid_cat"), Sym("block"), 0, 0, [ga, gb, gc, gd])
+        else:
+            r0, r1 = inp["r0"], inp["r1"]
+            xa, da_, ga = G([rc, c1], 0)
+            r, e = da.tile(da_, (r0, r1)), np.tile(xa, (r0, r1))
+            m = ctx.lean(Sym("grid_cat"), Sym("tile"), r0, r1, [ga])
+        if not _same(ctx, op, r, e, blocks=False):
+            return
+        if len(r.chunks[0]) * len(r.chunks[1]) <= 48:
+            _grid_eq(ctx, op, m, r)
+        ctx.branch("grid:" + op)
+    elif op == "pad_const":
+        cs, l, rr, v = inp["cs"], inp["l"], inp["r"], inp["v"]
+        x, d = _mk([cs])
+        blocks = [np.asarray(d.blocks[i].compute(scheduler="sync")).tolist() for i in range(len(cs))]
+        r, e = da.pad(d, (l, rr), mode="constant", constant_values=v), np.pad(x, (l, rr), mode="constant", constant_values=v)
+        m = ctx.lean(Sym("pad_const"), cs, blocks, l, rr, v)
+        if not _same(ctx, "pad(constant)", r, e, blocks=False):
+            return
+        real = [np.asarray(r.blocks[i].compute(scheduler="sync")).tolist() for i in range(len(r.chunks[0]))]
+        # a zero-width pad is the single chunk (0,): concatenate drops empty arrays
+        ctx.eq("pad(constant): the list of blocks vs the Lean plan", [b for b in m if b], [b for b in real if b])
+        ctx.branch("grid:pad_const" + (":multi-chunk-pad" if max(l, rr) > max(cs + [0]) > 0 else ""))
     elif op in ("flip1d", "tile1d", "diff1d"):
         cs, rr = inp["cs"], inp.get("r", 1)
         x, d = _mk([cs])
@@ -1060,7 +1100,8 @@ def _near_identity(rng, old, kind):
 
 def _gen_grid(rng):
     op = rng.choice(["transpose", "T", "swapaxes", "moveaxis", "flip0", "flip1", "rot90", "rot90", "tril", "tril", "triu", "triu",
-                     "stack", "bcast_rows", "bcast_len1", "flip1d", "tile1d", "diff1d"])
+                     "stack", "bcast_rows", "bcast_len1", "flip1d", "tile1d", "diff1d", "hcat", "vcat", "block2x2", "tile2d",
+                     "pad_const", "pad_const"])
     z = rng.random() < 0.15
     comp = (lambda n: rand_comp_zeros(rng, n)) if z else (lambda n: rand_comp(rng, n))
     if op in ("stack",):
@@ -1071,6 +1112,12 @@ def _gen_grid(rng):
         return {"op": op, "new": rand_comp(rng, rng.randint(1, 7)), "seed": rng.randint(0, 9)}
     if op in ("flip1d", "tile1d", "diff1d"):
         return {"op": op, "cs": comp(rng.randint(1, 8)), "r": rng.randint(1, 3)}
+    if op in ("hcat", "vcat", "block2x2", "tile2d"):
+        return {"op": op, "rc": rand_comp(rng, rng.randint(1, 4)), "c1": rand_comp(rng, rng.randint(1, 4)),
+                "c2": rand_comp(rng, rng.randint(1, 4)), "r2": rand_comp(rng, rng.randint(1, 3)),
+                "r0": rng.randint(1, 3), "r1": rng.randint(1, 3)}
+    if op == "pad_const":
+        return {"op": op, "cs": comp(rng.randint(1, 7)), "l": rng.randint(0, 9), "r": rng.randint(0, 9), "v": rng.randint(-3, 3)}
     inp = {"op": op, "rc": comp(rng.randint(1, 6)), "cc": comp(rng.randint(1, 6))}
     if op == "rot90":
         inp["k"] = rng.randint(-5, 6)
@@ -1143,7 +1190,7 @@ def generate(ctx):
                 for op, k in [("transpose", 0), ("flip0", 0), ("flip1", 0), ("rot90", 1), ("rot90", 2), ("rot90", 3),
                               ("tril", 0), ("tril", -1), ("tril", 1), ("triu", 0), ("triu", 1), ("triu", -2)]:
                     yield "grid", {"op": op, "k": k, "rc": list(rc), "cc": list(cc)}
-    for _ in range(ctx.n(170, 2500)):
+    for _ in range(ctx.n(210, 3000)):
         yield "grid", _gen_grid(rng)
     # --- exhaustive small spaces: every chunking of n <= 4 (6 thorough), every pad width within the axis ---
     top = 3 if not ctx.thorough() else 5
